@@ -198,10 +198,16 @@ func fileSinkSpecial(pa *Path) bool {
 
 func runC08(c *Ctx) {
 	p, r := c.P, c.R
-	r.Explanation = "Decides only the structural premises of 'FileSink never loses, duplicates, reorders or tears an acknowledged event': f / BytesWritten / LastCreated are accessed only with FileSink.l held (pairwise lock-set discipline; open, rotate, reopen and pruneFiles are entered only with the lock held) and rotation and the write lie in one critical section; every file open of the sink is os.OpenFile with constant flags containing O_APPEND|O_CREATE|O_WRONLY and no O_TRUNC, and no os.Create / WriteFile / Truncate exists; success is acknowledged only after a write of exactly the event's bytes whose error was tested nil, the retry rewinds the same reader, and a second write only follows a failed first one; the destination is an *os.File (no buffering layer between acknowledgement and write(2)); os.Remove occurs only in pruning on elements of the sink's own glob, os.Rename only in rotation after the file was closed. Crash atomicity, ordering across files, the retention-suffix clause and partially written first attempts followed by a successful retry are file-system / runtime behaviour and are not decided."
+	r.Explanation = "Decides only the structural premises of 'FileSink never loses, duplicates, reorders or tears an acknowledged event': f / BytesWritten / LastCreated are accessed only with FileSink.l held (pairwise lock-set discipline; open, rotate, reopen and pruneFiles are entered only with the lock held) and rotation and the write lie in one critical section; every file open of the sink is os.OpenFile with constant flags containing O_APPEND|O_CREATE|O_WRONLY and no O_TRUNC, and no os.Create / WriteFile / Truncate exists; success is acknowledged only after a write of exactly the event's bytes whose error was tested nil, the retry rewinds the same reader, and a second write only follows a failed first one; the destination is an *os.File (no buffering layer between acknowledgement and write(2)); os.Remove occurs only in pruning on elements of the sink's own glob, os.Rename only in rotation after the file was closed; pruning stops at the first file it cannot remove (so an older file never survives a newer one that was removed). Crash atomicity, ordering across files, the retention-suffix clause and partially written first attempts followed by a successful retry are file-system / runtime behaviour and are not decided."
 	r.NotDecided = []string{"crash points (whole events after a kill)", "ordering across rotated files", "retention leaving a suffix", "a partially written first attempt followed by a successful retry (duplicate prefix)", "external renames of the active file"}
 	c.lockControls()
 	must := c.MustLocks()
+	// --- C08.retention (structural half of "what remains is a suffix"): pruning walks the sorted
+	// matches oldest first and STOPS at the first file it cannot remove — carrying on would delete
+	// newer files behind an older one that stays
+	if fn := c.Fn("C08.retention", PkgRoot, "FileSink", "pruneFiles"); fn != nil {
+		c.errorFlowRule("C08.retention", fn, nil, false)
+	}
 	// --- C08.lock
 	n := c.guardRule("C08.lock", []string{"eventlogger.FileSink"}, nil, false)
 	if n < 3 {
@@ -422,6 +428,7 @@ func runC13(c *Ctx) {
 		})
 		r.Check(okCount, "C15.count", "(*FileSink).Process:count", p.Pos(fn.Pos()), "BytesWritten += n of the successful write", "the successful write's byte count is not added to BytesWritten (size-based rotation would never trigger)")
 	}
+	c.ruleChannelCtor()
 	// --- C13.chan
 	if fn := c.Fn("C13.chan", PkgChannel, "ChannelSink", "Process"); fn != nil {
 		tb := p.NewTerms(nil)
